@@ -271,8 +271,8 @@ struct Model<T: RealNumber, D: Distance<Vec<T>, T>> {
 
 fn fit_one<T, D>(c: &mut Case, p: &Prep<T>, metric: &D, mname: &str, eps: T, ms: usize, b: Backend, st: &mut St) -> Option<Model<T, D>>
 where
-    T: RealNumber + Serialize,
-    D: Distance<Vec<T>, T> + Serialize + Clone,
+    T: SNum,
+    D: Distance<Vec<T>, T> + Serialize + serde::de::DeserializeOwned + Clone,
 {
     let n = p.pts.len();
     let r = guard(|| {
@@ -453,8 +453,8 @@ fn eval_fit(r: &Ref, labels: &[i64], k: usize) -> (Vec<Out>, bool) {
 /// noise when there are none. Returns (general outcomes, outcome of the "none -> noise" clause).
 fn eval_predict<T, D>(c: &mut Case, m: &Model<T, D>, n: usize, queries: &[Vec<T>], qd: &[Vec<T>], eps: T, b: Backend, ctx: &dyn Fn() -> String) -> (Vec<Out>, Option<Out>)
 where
-    T: RealNumber + Serialize,
-    D: Distance<Vec<T>, T> + Serialize + Clone,
+    T: SNum,
+    D: Distance<Vec<T>, T> + Serialize + serde::de::DeserializeOwned + Clone,
 {
     let mut o: Vec<Out> = Vec::with_capacity(4);
     if queries.is_empty() {
@@ -484,6 +484,7 @@ where
     if res.len() != queries.len() {
         return (o, None);
     }
+    sequence_checks(c, "predict", b.name(), &m.m, &qm, &fv(&res), |mm, q| mm.predict(q));
     let k = m.k;
     let mut bad_value: Option<usize> = None;
     let mut bad_none: Option<usize> = None;
@@ -571,8 +572,8 @@ fn sig_of(b: Backend, mname: &str) -> &'static str {
 /// runs both backends on one prepared data set for every (eps, min_samples) of `configs`
 fn run_configs<T, D>(c: &mut Case, pts: Vec<Vec<T>>, queries: &[Vec<T>], metric: &D, mname: &'static str, configs: &[(T, usize)], st: &mut St, small: bool)
 where
-    T: RealNumber + Serialize,
-    D: Distance<Vec<T>, T> + Serialize + Clone,
+    T: SNum,
+    D: Distance<Vec<T>, T> + Serialize + serde::de::DeserializeOwned + Clone,
 {
     let p = match prep(c, pts, metric) {
         Some(p) => p,
@@ -977,8 +978,8 @@ fn draw_queries<T: RealNumber>(rng: &mut Rng, pts: &[Vec<T>], eps: T) -> Vec<Vec
 
 fn run_random_t<T, D>(c: &mut Case, pts64: Vec<Vec<f64>>, kind: String, force: Option<(f64, usize)>, metric: D, mname: &'static str)
 where
-    T: RealNumber + Serialize,
-    D: Distance<Vec<T>, T> + Serialize + Clone,
+    T: SNum,
+    D: Distance<Vec<T>, T> + Serialize + serde::de::DeserializeOwned + Clone,
 {
     let pts: Vec<Vec<T>> = pts64.iter().map(|p| tv::<T>(p)).collect();
     let n = pts.len();
